@@ -53,6 +53,9 @@ def parse(case, out):
     elif k == 8:
         d["readers"], d["completed"], d["intact"] = out[2:5]
         d["total"], d["log"] = parse_log(out, 5)
+    elif k == 9:
+        d["got"], d["expected"] = out[2:4]
+        d["total"], d["log"] = parse_log(out, 4)
     return d
 
 
@@ -185,6 +188,17 @@ def oracle(case, out):
             return "only %d of %d datagrams accepted by send_datagram_wait" % (d["sent"], case[1])
         if d["received_ok"] != d["received"] or d["received"] > d["sent"]:
             return "received %d datagrams, %d intact, %d sent" % (d["received"], d["received_ok"], d["sent"])
+        return None
+    if d["kind"] == 9:
+        if d["verdict"] == 4:
+            return "the answer written on the send half of the bidirectional stream did not reach the peer intact"
+        if d["verdict"] != 0:
+            return "bidirectional-halves scenario did not finish (verdict %d)" % d["verdict"]
+        if d["got"] != d["expected"]:
+            return ("a reader parked on the receive half of a bidirectional stream while the send half of the SAME stream "
+                    "was finished and dropped got %s of %d bytes: %s" % (
+                        "no end-of-stream / was never woken" if d["got"] > 1 << 40 else str(d["got"]), d["expected"],
+                        "left hanging" if d["got"] > 1 << 40 else "data lost"))
         return None
     if d["kind"] == 8:
         if d["verdict"] != 0:
